@@ -189,9 +189,9 @@ type analysed struct {
 	text     string
 	toks     []cytext.Token
 	tree     *cytext.RawTree
-	excluded map[int]bool                          // token indices not compared one by one (R6, R7)
-	ranges   []string                              // hop intervals of the range literals, in order (R7)
-	paths    map[int][]antlr.ParserRuleContext      // token index -> ancestors, outermost first
+	excluded map[int]bool                      // token indices not compared one by one (R6, R7)
+	ranges   []string                          // hop intervals of the range literals, in order (R7)
+	paths    map[int][]antlr.ParserRuleContext // token index -> ancestors, outermost first
 	rules    map[string]int
 }
 
@@ -713,6 +713,10 @@ func check(a artefact) (r result) {
 			return k
 		}
 		return generic
+	}
+	if _, lexErrs := cytext.Lex(text); len(lexErrs) > 0 {
+		viol("unrecognised-characters-accepted", "accepted although the project's lexer cannot tokenise the text (%s): those characters are represented nowhere", short(lexErrs[0], 120))
+		return
 	}
 	var used []string
 	for rname := range in.rules {
